@@ -372,20 +372,29 @@ def line_level(kind_spec_factory, s, route):
         def needs_filing(self, values):
             return False
     cp = configparser.ConfigParser()
-    if route == 'file':
+    if route in ('file', 'file+prompt'):
         try:
             cp.read_string('[t]\nx = ' + s + '\n')
         except configparser.Error:
             return 'ini', seen
     st = hi.InputStore(cp)
 
+    asked = []
+
     def prompt(missing, needed_by):
+        asked.append(missing.name())
+        if route == 'file+prompt':
+            return (None, False)      # the user declines; the input was in the file anyway
         if not missing.valid(s):
             return (None, False)
         return (s, True)
-    sol = hsolver.Solver(st, [T], prompt=prompt if route == 'prompt' else None)
+    sol = hsolver.Solver(st, [T], prompt=prompt if route in ('prompt', 'file+prompt') else None)
     try:
         ok = sol.solve(['t'])
+        if route == 'file+prompt' and asked:
+            return 'asked-although-supplied', seen
+        if route == 'file+prompt' and not ok and sol.unmet_input_dependencies():
+            return 'reported-missing-although-supplied', seen
     except hi.InvalidInput:
         return 'invalid', seen
     except (configparser.Error, ValueError):
@@ -409,9 +418,11 @@ def _line_work(strings):
         for kind, fac in FACTORIES.items():
             spec = fac()
             spec.__form_init__(_F())
-            for route in ('file', 'prompt'):
+            for route in ('file', 'prompt', 'file+prompt'):
                 n += 1
                 status, seen = line_level(fac, s, route)
+                if status in ('asked-although-supplied', 'reported-missing-although-supplied'):
+                    errs.append((kind, 'line/' + route, s, f'text supplied in the file: {status} (an interactive solve must report invalid text as invalid, not ask again)'))
                 for x in seen:
                     if kind in ('enum', 'enum_empty'):
                         bad = not (x is None or type(x) is spec.enum)
